@@ -238,6 +238,31 @@ def cosim_ops(ctx: Ctx, rp, k: int):
         if v in en_route:
             ctx.count("cosim_pop_and_put_back_a_vehicle_on_its_way_to_a_request")
         return rp._replace(s=s3)
+    if kind == "stale_write_back":
+        # a client that read a vehicle some calls ago and now writes that (older) copy back with one more membership
+        # (Vehicle.add_membership + modify_entities): the vehicle is replaced as a whole, activity and position together
+        held = ctx.__dict__.setdefault("_held_copies", {})
+        vs = rp.s.get_vehicles()
+        if not vs:
+            return rp
+        out = rp
+        if held:
+            vid = r.choice(sorted(held))
+            old = held.pop(vid)
+            cur = rp.s.vehicles.get(vid)
+            if cur is not None:
+                res = modify_entities_safe(rp, [old.add_membership(f"tag{k}")])
+                if not isinstance(res, Failure):
+                    out = res.unwrap()
+                    ctx.count("cosim_stale_copy_written_back")
+                    if cur.geoid != old.geoid:
+                        ctx.count("cosim_stale_copy_written_back_from_another_place")
+        pick = r.choice(list(vs))
+        moving = [x for x in vs if hasattr(x.vehicle_state, "route") and len(x.vehicle_state.route) > 0]
+        if moving and r.random() < 0.7:
+            pick = r.choice(moving)
+        held[pick.id] = pick
+        return out
     if kind == "change_request_membership":
         # the operator opens a waiting request to one more fleet (Request.add_membership + modify_entities), preferably
         # one that already has a vehicle on its way
